@@ -1,31 +1,102 @@
-(** C08 — property theorems (proofs are in C08/Proofs.v). *)
-From Coq Require Import List String Bool Arith.
+(** C08 — property theorems (proofs are in C08/Proofs.v).
+
+    The worker model ([C08/Model.v]) is generic in the configuration view, in
+    [ConfigState::dispatch] (the same function in the main process and in the
+    worker), in the request payload, and every request comes with an [oracle]
+    that stands for whatever the proxies and the state decide: which
+    control-flow path each arm takes, OK or failure for every answer, whether a
+    listener could be added.  The arms themselves — how many [push_queue] calls
+    on each path, which paths [return] — are generated from the source. *)
+From Coq Require Import List String Bool Arith ZArith.
 From SV Require Import C08.Base C08.Gen C08.Model C08.Proofs.
 Import ListNotations.
 Open Scope string_scope.
 
-(** Whatever its type — worker verb, proxy verb, listener verb, a verb meant for
-    the main process, or no request_type at all — a request gets exactly one
-    final answer from the control flow read_channel_messages_and_notify ->
-    notify -> notify_proxys, as it is in the source today. *)
-Theorem one_final_answer : forall name, answers_of name = 1.
-Proof. exact answers_of_one. Qed.
+Section props.
+  Variable view : Type.
+  Variable payload : Type.
+  Variable dispatch : view -> string -> payload -> view.
 
-(** Over any sequence of requests with distinct ids, each id is answered
-    exactly once, in request order, and no other id ever appears. *)
-Theorem one_final_answer_per_id : forall reqs id,
-    NoDup (map fst reqs) ->
-    count_occ Nat.eq_dec (stream reqs) id = if in_dec Nat.eq_dec id (map fst reqs) then 1 else 0.
+  (** 1a. A live worker answers a request that is not a stop with exactly one
+      response: final (OK or failure), carrying the request's id — for every
+      variant (also an unknown one or none), every worker state, every oracle. *)
+  Theorem one_final_answer : forall (w : worker view) (r : request payload) o w' out,
+      w_alive w = true -> is_stop_name (r_name r) = false ->
+      handle dispatch w r o = (w', out) ->
+      (exists st, out = [mkResp (r_id r) st] /\ st <> SProcessing) /\
+      w_alive w' = true /\ w_stopping w' = w_stopping w.
+  Proof. exact (handle_plain view payload dispatch). Qed.
+
+  (** 1b. SoftStop: one Processing notice now, the final OK when the sessions
+      have drained; HardStop: the notice and the final OK at once. *)
+  Theorem soft_stop_answers : forall (w : worker view) (r : request payload) o w' out,
+      w_alive w = true -> r_name r = "SoftStop" ->
+      handle dispatch w r o = (w', out) ->
+      out = [mkResp (r_id r) SProcessing] /\ w_alive w' = true /\ w_stopping w' = Some (r_id r) /\
+      snd (step dispatch w' EDrained) = [mkResp (r_id r) SOk].
+  Proof.
+    intros w r o w' out Ha Hn H. destruct (handle_soft view payload dispatch _ _ _ _ _ Ha Hn H) as [A [B C]].
+    repeat split; try assumption. cbn [step]. rewrite B, C. reflexivity.
+  Qed.
+
+  Theorem hard_stop_answers : forall (w : worker view) (r : request payload) o w' out,
+      w_alive w = true -> r_name r = "HardStop" ->
+      handle dispatch w r o = (w', out) ->
+      out = [mkResp (r_id r) SProcessing; mkResp (r_id r) SOk] /\ w_alive w' = false /\ w_stopping w' = w_stopping w.
+  Proof. exact (handle_hard view payload dispatch). Qed.
+
+  (** 1c. Over any sequence of requests with distinct ids (and drain events
+      anywhere), no id ever gets two final answers: ids of earlier requests do
+      not reappear. *)
+  Theorem one_final_answer_per_id : forall es (w : worker view) id,
+      w_stopping w = None -> NoDup (flat_map (req_id_of payload) es) ->
+      finals id (snd (run dispatch w es)) <= 1.
+  Proof. exact (one_final_answer_seq view payload dispatch). Qed.
+
+  (** 2. The worker's view is the fold of [dispatch] over the requests it
+      served, each applied exactly once — provided the variants whose arms can
+      leave before [config_state.dispatch] are variants [ConfigState::dispatch]
+      accepts without touching the state (the generated list [state_noop];
+      that every skipping arm is in it is checked by computation). *)
+  Theorem view_tracks_master :
+    (forall v name p, In name state_noop -> dispatch v name p = v) ->
+    forall es (w : worker view),
+      w_view (fst (run dispatch w es)) =
+      fold_left (fun v r => dispatch v (r_name r) (r_payload r)) (served view payload dispatch w es) (w_view w).
+  Proof. exact (view_tracks_master_seq view payload dispatch). Qed.
+
+  (** 3. base_sessions_count no longer decides anything: the answers of a worker
+      (the completion of a soft stop included) are the same whatever its value. *)
+  Theorem answers_ignore_base_count : forall es (w : worker view),
+      snd (run dispatch (erase view w) es) = snd (run dispatch w es).
+  Proof. exact (run_erase view payload dispatch). Qed.
+End props.
+
+(** the generated table: every control-flow path of every arm, one final answer *)
+Theorem every_path_answers_once : table_ok = true /\ skips_ok = true.
+Proof. split; [exact all_arms_one_final|exact all_skips_are_noops]. Qed.
+
+(** base_sessions_count does drift from the listen slots (kept visible): add a
+    listener, remove it — the slot stays, the count drops. *)
+Theorem base_count_sound_refuted :
+  exists es, let w := fst (run (fun (v : unit) _ (_ : unit) => v) (mkW tt 3%Z 3 None true) es) in
+             w_base w <> Z.of_nat (w_slots w).
 Proof.
-  intros reqs id Hnd. rewrite stream_is_ids. destruct (in_dec Nat.eq_dec id (map fst reqs)) as [Hin|Hnin].
-  - apply count_occ_map_fst; assumption.
-  - apply count_occ_not_In. exact Hnin.
+  exists [EReq (mkReq 1 "AddTcpListener" tt) (mkOr 0 0 0 0 (fun _ => false) true true);
+          EReq (mkReq 2 "RemoveListener" tt) (mkOr 0 0 0 0 (fun _ => false) true true)].
+  vm_compute. discriminate.
 Qed.
 
-Theorem answers_in_request_order : forall reqs, stream reqs = map fst reqs.
-Proof. exact stream_is_ids. Qed.
-
 Example one_final_answer_nonvacuous :
-  stream [(1, "AddCluster"); (2, "RemoveListener"); (3, "QueryClusterById"); (4, "ListWorkers"); (5, "NoSuchVerb")]
-  = [1; 2; 3; 4; 5] /\ List.length arms_table >= 40.
+  snd (run (fun (v : nat) _ (p : nat) => v + p) (mkW 0 3%Z 3 None true)
+        [EReq (mkReq 1 "AddCluster" 5) (mkOr 0 0 1 0 (fun _ => false) true true);
+         EReq (mkReq 2 "AddCluster" 5) (mkOr 0 0 0 0 (fun _ => true) true true);
+         EReq (mkReq 3 "QueryCertificatesFromWorkers" 0) (mkOr 0 1 0 0 (fun _ => false) true true);
+         EReq (mkReq 4 "ListWorkers" 0) (mkOr 0 0 0 0 (fun _ => false) false true);
+         EReq (mkReq 5 "SoftStop" 0) (mkOr 0 0 0 0 (fun _ => false) true true);
+         EReq (mkReq 6 "Status" 0) (mkOr 0 0 0 0 (fun _ => false) true true);
+         EDrained;
+         EReq (mkReq 7 "Status" 0) (mkOr 0 0 0 0 (fun _ => false) true true)])
+  = [mkResp 1 SOk; mkResp 2 SFailure; mkResp 3 SOk; mkResp 4 SOk; mkResp 5 SProcessing; mkResp 6 SOk; mkResp 5 SOk]
+  /\ List.length arms_table >= 50.
 Proof. vm_compute. split; [reflexivity|]. repeat constructor. Qed.
